@@ -152,7 +152,7 @@ class PrimMalformed(Stream):
 
     def generate(self, rng, tier):
         shapes = {}
-        for c in A.prim_cases(rng, "quick"):
+        for c in A.prim_cases(rng, "quick", deep_lens=[]):
             shapes[(c['kind'], c['tag'], c.get('etag', ''), c.get('nalt', 0))] = c
         shapes = list(shapes.values())
         out = []
@@ -187,13 +187,16 @@ class C14(A.AperCheck):
     streams = [NgapMalformed(), PrimMalformed()]
     trusted = ["Coq 8.16.1 kernel incl. vm_compute (no native_compute); no axioms (Print Assumptions: closed under the global context)",
                "hand-written models Model/AperEnc.v, Model/AperDec.v (marshal.go / aper.go) tied by the correspondence streams: implementation == model on every case, incl. error identity and panics",
+               "Model/AperDecCost.v: step-counting copy of Model/AperDec.v; proved to return the same results (c14_steps_same_result); which operations count as a step is a modelling choice stated in that file",
                "Go slices modelled with capacity == length (the harness hands exact-capacity slices to the codec)",
                "reflect-based translator harness/gen_ngapschema.go (a copy of parseFieldParameters; root parameter strings read from ngap.go / build.go)",
                "Spec/NgapGolden.v: frozen transcription of the TS 38.413 types in tag notation (cross-checked against an independent Python X.691 reference on ~24000 values in the design round)",
                "Spec/X691.v written from ITU-T X.691 (08/2015), aligned variant, lengths below 16384, no extension additions",
                "Python reference encoder in vlib/props/AperLib.py (only used to produce canonical encodings; checked equal to the Coq specification on every case)"]
     assumptions = ["inputs below 2^32 octets (the property: 4 KiB)",
-                   "totality is proved for all primitive readers incl. parseInteger; parseOctetString/BitString and parseField are TODO-PARTIAL (Properties/C14.v) and covered by the malformed streams",
+                   "totality, the allocation bound and the step bound (steps <= 3365 + 38896*|input|, Properties/C14.v c14_decode_linear_time) are proved for every NGAP root; "
+                   "a step is what Model/AperDecCost.v counts (reader calls, loop turns, octets copied; not the trace-string formatting, reflect bookkeeping or the clearing of reserved memory); "
+                   "wall-clock time of the implementation is observed by the malformed streams only",
                    "allocation limit of the stream: 20 MiB + 64 KiB per input octet (schema worst chain 16.25 MB, DESIGN.md C14)"]
 
     def regen(self, harness):
